@@ -1,7 +1,134 @@
-import TmVerif.Model.LexSpec
-namespace TmVerif.C09
-open TmVerif.LexSpec
+import TmVerif.Proofs.LexSound
+/-!
+C09 — Lexer tables implement longest match with rule priority (property theorems only).
 
-theorem C09_tmp_nullable_eps : nullable .eps = true := rfl
+Model: `Model/LexSpec.lean` (`scanSpec` = the property as a definition, the derivative matcher, the validator
+`checkClasses`/`checkDfa`), `Model/LexTables.lean` (mirror of `lex.Tables.Scan`, shared with C24),
+`Model/Regex.lean` (`Lang`, the denotation of C10).  Mode V: the outer quantifier (rule sets) is sampled — the real
+`lex.Compile` output is validated case by case —, the inner one (all texts, all code points, all start conditions)
+is closed by `C09_checkDfa_sound_partial`.
+
+The pinned `Tables.Scan` looks the end-of-input column up once and never follows a transition found there, so
+with a rule that can consume `{eoi}` it returns a meaningless negative action (`C09_checkDfa_sound_full_refuted`);
+the full statement is therefore proved under the decidable hypothesis `noEoiShift` (no transition on end of
+input in the tables) — exactly what the proof needs at the end of the text.
+-/
+namespace TmVerif.C09
+open TmVerif.Charset TmVerif.Regex TmVerif.LexTables TmVerif.LexSpec
+
+/-! ## The derivative matcher -/
+
+/-- One derivative step: `deriv s r` denotes the words `w` with `s·w` in the language of `r`. -/
+theorem C09_deriv_step (s : Int) (r : Regex) (w : List Int) :
+    Lang noExt (deriv s r) w ↔ Lang noExt r (s :: w) := deriv_correct s r w
+
+/-- The executable matcher decides the language of C10's denotation (all expressions, all words; named
+references denote nothing: the harness resolves them before the rules reach the model). -/
+theorem C09_derivative_correct (r : Regex) (w : List Int) :
+    Lang noExt r w ↔ nullable (derivs r w) = true := (matchesB_iff r w).symm
+
+/-- `emptyB` decides emptiness of the language exactly; with derivatives: a prefix `u` can be extended to a
+word of `r` iff `emptyB (derivs r u) = false`. -/
+theorem C09_emptiness_correct (r : Regex) (u : List Int) :
+    emptyB (derivs r u) = false ↔ ∃ v, Lang noExt r (u ++ v) := by
+  rw [emptyB_false_iff]
+  constructor
+  · rintro ⟨v, h⟩; exact ⟨v, (derivs_correct r u v).1 h⟩
+  · rintro ⟨v, h⟩; exact ⟨v, (derivs_correct r u v).2 h⟩
+
+/-! ## Symbol classes -/
+
+/-- If `checkClasses` passes, every code point `r` of the scanned alphabet is mapped by `Scan`'s lookup to a
+class `c < NumSymbols` that has a representative `s`, and `r` and `s` belong to exactly the same range lists
+of the rules — over all 0x110000 code points (256 bytes), decided by a check linear in the symbol map. -/
+theorem C09_checkClasses_sound (rules : List Rule) (t : Tables) (hwf : t.wf = true)
+    (hc : checkClasses rules t = true) (r : Int) (h0 : 0 ≤ r) (h1 : r ≤ maxRune t.scanBytes) :
+    ∃ c s, symOf t r = some c ∧ 0 ≤ c ∧ c < t.numSymbols ∧ repOf t c = some s ∧
+      ∀ cs ∈ ruleSets rules, memB r cs = memB s cs :=
+  checkClasses_sound rules t hwf hc r h0 h1
+
+/-- … and therefore has the same derivatives as its representative, for every expression built from the
+range lists of the rules (in particular every derivative of a rule, `csSub_deriv`). -/
+theorem C09_class_representative (rules : List Rule) (t : Tables) (hwf : t.wf = true)
+    (hc : checkClasses rules t = true) (r : Int) (h0 : 0 ≤ r) (h1 : r ≤ maxRune t.scanBytes) :
+    ∃ c s, symOf t r = some c ∧ repOf t c = some s ∧
+      ∀ d, CsSub d (ruleSets rules) → deriv r d = deriv s d ∧ CsSub (deriv r d) (ruleSets rules) := by
+  obtain ⟨c, s, h1, _, _, h4, h5⟩ := checkClasses_sound rules t hwf hc r h0 h1
+  exact ⟨c, s, h1, h4, fun d hd => ⟨deriv_congr _ r s h5 d hd, csSub_deriv r d _ hd⟩⟩
+
+/-! ## The tables -/
+
+/-- Example rule set: `aaaa` → 1, `a` → 2 (needs a backtracking checkpoint), with the tables `lex.Compile` returns. -/
+def exRules : List Rule :=
+  [⟨litSyms [97, 97, 97, 97], 0, 1, [0]⟩, ⟨litSyms [97], 0, 2, [0]⟩]
+
+def exTables : Tables where
+  scanBytes := false
+  symbolMap := #[⟨0, 1⟩, ⟨97, 2⟩, ⟨98, 1⟩]
+  numSymbols := 3
+  stateMap := #[0]
+  dfa := #[-2, -2, 1, -4, -4, -1, -2, -2, 3, -2, -2, 4, -3, -3, -3]
+  backtrack := #[⟨2, 2⟩]
+
+/-- Example with `{eoi}`: `a` → 2, `{eoi}` → 1, with the tables `lex.Compile` returns. -/
+def eoiRules : List Rule :=
+  [⟨litSyms [97], 0, 2, [0]⟩, ⟨.cc [(eoiSym, eoiSym)], 0, 1, [0]⟩]
+
+def eoiTables : Tables where
+  scanBytes := false
+  symbolMap := #[⟨0, 1⟩, ⟨97, 2⟩, ⟨98, 1⟩]
+  numSymbols := 3
+  stateMap := #[0]
+  dfa := #[2, -1, 1, -3, -3, -3, -2, -2, -2]
+  backtrack := #[]
+
+/-- The full statement of the validator's soundness: for tables that pass `checkClasses` and `checkDfa`, the
+mirror of `Tables.Scan` returns `scanSpec` for every start condition and every text. -/
+def C09_checkDfa_sound_full : Prop :=
+  ∀ (rules : List Rule) (t : Tables), checkClasses rules t = true → checkDfa rules t = true →
+    ∀ (sc : Nat), sc < t.stateMap.size → ∀ (chars : List (Int × Nat)), CharsOk t chars →
+      lexScanChars t (sc : Int) chars = some (scanSpec rules (sc : Int) chars)
+
+/-- Proved part: the same under the hypothesis that the tables have no transition on end of input
+(`noEoiShift`, decidable, evaluated by the harness' defect-class filter: it holds for every rule set in which no
+`{eoi}` is reachable).  All start conditions, all texts (`CharsOk`: code points of the scanned alphabet with
+positive widths, which is what a byte string decodes to, `C09_scan_text_partial`), with backtracking. -/
+theorem C09_checkDfa_sound_partial (rules : List Rule) (t : Tables) (hc : checkClasses rules t = true)
+    (hd : checkDfa rules t = true) (he : noEoiShift t = true) (sc : Nat) (hsc : sc < t.stateMap.size)
+    (chars : List (Int × Nat)) (hok : CharsOk t chars) :
+    lexScanChars t (sc : Int) chars = some (scanSpec rules (sc : Int) chars) :=
+  scan_eq_spec rules t hc hd he sc hsc chars hok
+
+example : checkClasses exRules exTables = true ∧ checkDfa exRules exTables = true ∧
+    noEoiShift exTables = true ∧ 0 < exTables.stateMap.size ∧
+    CharsOk exTables [(97, 1), (97, 1), (98, 1)] ∧
+    lexScanChars exTables 0 [(97, 1), (97, 1), (98, 1)] = some (1, 2) := by
+  refine ⟨by decide +kernel, by decide +kernel, by decide +kernel, by decide, ?_, by decide +kernel⟩
+  intro c hc
+  simp at hc
+  rcases hc with rfl | rfl <;> decide
+
+/-- The statement for byte strings: in byte mode every byte is a character of width 1, in rune mode the text is
+decoded as `utf8.DecodeRuneInString` does (invalid bytes are `U+FFFD` of width 1). -/
+theorem C09_scan_text_partial (rules : List Rule) (t : Tables) (hc : checkClasses rules t = true)
+    (hd : checkDfa rules t = true) (he : noEoiShift t = true) (sc : Nat) (hsc : sc < t.stateMap.size)
+    (text : List Nat) (hb : ∀ b ∈ text, b < 256) :
+    lexScanChars t (sc : Int) (charsOf t.scanBytes text) =
+      some (scanSpec rules (sc : Int) (charsOf t.scanBytes text)) :=
+  scan_eq_spec rules t hc hd he sc hsc _ (charsOk_charsOf t text hb)
+
+example : charsOf false [0x61, 0xC3, 0xA9, 0xFF] = [(0x61, 1), (0xE9, 2), (0xFFFD, 1)] := by decide +kernel
+
+/-- The full statement does not hold for `Tables.Scan` as it is: for the rules `a` → 2, `{eoi}` → 1 and the
+tables the real `lex.Compile` returns (they pass the validator), `Scan(0, "")` is `(0, -3)`; the property
+demands `(0, 1)`. -/
+theorem C09_checkDfa_sound_full_refuted : ¬ C09_checkDfa_sound_full := by
+  intro h
+  have := h eoiRules eoiTables (by decide +kernel) (by decide +kernel) 0 (by decide) [] (by intro c hc; cases hc)
+  revert this
+  decide +kernel
+
+example : lexScanChars eoiTables 0 [] = some (0, -3) ∧ scanSpec eoiRules 0 [] = (0, 1) ∧
+    noEoiShift eoiTables = false := by decide +kernel
 
 end TmVerif.C09
